@@ -21,7 +21,7 @@ func init() {
 	register(&Def{
 		ID:          "C17",
 		Technique:   "edge-condition extraction at the assigner call (reserved-prefix gate), accepted-idiom table for the service split, sort-dominates-return rule, writer/reader type agreement for context keys",
-		Explanation: "Decides: (D1) the assigner is consulted exactly on ¬builtin or builtin ∧ ¬HasPrefix(name, \"rpc.\"); on the reserved edge a handler is returned only under equality with a constant reserved name; builtin = ¬DisableBuiltin with nil options enabled; (D2) Map.Assign indexes with the unmodified name; ServiceMap.Assign splits with a first-separator idiom, returns nil without separator or service, and forwards the remainder unmodified; (D3) every Names method returns a slice that passed through sort.Strings after its last append; (D4) each context accessor's key has a WithValue writer storing exactly the type it asserts; the assigner is called with the task's own context after the request was attached; the handler's context carries the server; (D5) ServerInfo takes its method list from the assigner's Names(). (D6) the method member is decoded by encoding/json into the message itself; the start time is stored only when unset. (D7) the request predicate is exactly method ≠ \"\" ∧ no error ∧ no result; option accessors with a default supply it whenever the option is unset. (D8) an accessor that forwards a ServerOptions/ClientOptions returns the caller's struct itself, never a partial copy; the Names methods append every key unconditionally.",
+		Explanation: "Decides: (D1) the assigner is consulted exactly on ¬builtin or builtin ∧ ¬HasPrefix(name, \"rpc.\"); on the reserved edge a handler is returned only under equality with a constant reserved name; builtin = ¬DisableBuiltin with nil options enabled; (D2) Map.Assign indexes with the unmodified name; ServiceMap.Assign splits with a first-separator idiom, returns nil without separator or service, and forwards the remainder unmodified; (D3) every Names method returns a slice that passed through sort.Strings after its last append; (D4) each context accessor's key has a WithValue writer storing exactly the type it asserts; the assigner is called with the task's own context after the request was attached; the handler's context carries the server; (D5) ServerInfo takes its method list from the assigner's Names(). (D6) the method member is decoded by encoding/json into the message itself; the start time is stored only when unset. (D7) the request predicate is exactly method ≠ \"\" ∧ no error ∧ no result; option accessors with a default supply it whenever the option is unset. (D8) an accessor that forwards a ServerOptions/ClientOptions returns the caller's struct itself, never a partial copy; the Names methods append every key unconditionally. Also decided: outside the start function the server's start time never comes from the clock.",
 		NotDecided:  []string{"behaviour for every unicode method name (map/string semantics assumed)", "metrics and start-time content of rpc.serverInfo"},
 		Assumptions: []string{"strings.SplitN/Cut/HasPrefix semantics"},
 		RuleText:    ruleText,
@@ -51,7 +51,7 @@ func init() {
 	register(&Def{
 		ID:          "C18",
 		Technique:   "edge-condition extraction at the bridge's gate, status-constant table, lock-step predicate agreement between the Notify flag and the caller-id list, index provenance of SetID, id-counter rule of the shared client",
-		Explanation: "Decides: (D1) the internal serve function is reached exactly when a parse hook is set or method == POST ∧ media type == application/json ∧ charset ∈ {absent, utf-8, utf8}; the failing edges write 405/415 and a failed serve an error status; (D2) the caller's id is recorded exactly when the spec appended in the same iteration is not a notification (negated predicate on the same member field) and response i is relabelled with recorded id i; (D3) a spec is appended only for members without a static error, whose own error object is appended instead; (D4) 204 exactly when the combined result list is empty, bare object exactly for one result; (D5) the shared client issues fresh ids (C04-D1). (D6) ParseRequests reports the null-normalised id. (D7) ParseRequests receives the complete body (io.ReadAll's result). (D8) the server's per-batch duplicate table records only members that have an id (the notifications of one POST are never taken for duplicates of each other).",
+		Explanation: "Decides: (D1) the internal serve function is reached exactly when a parse hook is set or method == POST ∧ media type == application/json ∧ charset ∈ {absent, utf-8, utf8}; the failing edges write 405/415 and a failed serve an error status; (D2) the caller's id is recorded exactly when the spec appended in the same iteration is not a notification (negated predicate on the same member field) and response i is relabelled with recorded id i; (D3) a spec is appended only for members without a static error, whose own error object is appended instead; (D4) 204 exactly when the combined result list is empty, bare object exactly for one result; (D5) the shared client issues fresh ids (C04-D1). (D6) ParseRequests reports the null-normalised id. (D7) ParseRequests receives the complete body (io.ReadAll's result). (D8) the server's per-batch duplicate table records only members that have an id (the notifications of one POST are never taken for duplicates of each other). (D9) the member parser records a failure exactly when a member has a method together with a result or an error.",
 		NotDecided:  []string{"'exactly its own responses' under concurrent callers reduces to C04/C01 and is not re-argued"},
 		Assumptions: []string{"mime.ParseMediaType semantics"},
 		RuleText:    ruleText,
@@ -74,7 +74,7 @@ func init() {
 	register(&Def{
 		ID:          "C19",
 		Technique:   "status-constant table of the Getter, dynamic-type inventory and finiteness guard for query parameters, obtained-response/Body.Close pairing, goroutine accounting in jhttp.Channel",
-		Explanation: "Decides: (D1) the Getter writes 400 on the parse-error edge, 404 under ErrorCode == MethodNotFound, 500 otherwise, 200 on success, and bodies are checked json.Marshal results; (D2) every value stored into a parameter map is a string, int64, bool, []byte, nil or a float64 that — when it comes from strconv.ParseFloat — is guarded by ¬IsNaN ∧ ¬IsInf; (D3) a successful parse returns strings.Trim(path, \"/\") on its non-empty edge; (D4) every function that takes HTTP responses off the result channel closes their bodies, and the sender closes or forwards every response it obtains; (D5) the per-POST goroutine is registered with the WaitGroup before it starts and the closer goroutine waits for it before closing the result channel. (D6) every path through the Getter's ServeHTTP writes a response. (D7) option accessors with a default supply it whenever the option is unset (the HTTP client is never nil); a string stored by ParseQuery is a whole query value or encoding/json's decoding of it. (D8) no case folding in the typing of query values. Also decided: the query parsers call ParseForm on every path, return its error and use no lenient accessor (URL.Query); the Getter writes the result's own bytes with 200.",
+		Explanation: "Decides: (D1) the Getter writes 400 on the parse-error edge, 404 under ErrorCode == MethodNotFound, 500 otherwise, 200 on success, and bodies are checked json.Marshal results; (D2) every value stored into a parameter map is a string, int64, bool, []byte, nil or a float64 that — when it comes from strconv.ParseFloat — is guarded by ¬IsNaN ∧ ¬IsInf; (D3) a successful parse returns strings.Trim(path, \"/\") on its non-empty edge; (D4) every function that takes HTTP responses off the result channel closes their bodies, and the sender closes or forwards every response it obtains; (D5) the per-POST goroutine is registered with the WaitGroup before it starts and the closer goroutine waits for it before closing the result channel. (D6) every path through the Getter's ServeHTTP writes a response. (D7) option accessors with a default supply it whenever the option is unset (the HTTP client is never nil); a string stored by ParseQuery is a whole query value or encoding/json's decoding of it. (D8) no case folding in the typing of query values. Also decided: the query parsers call ParseForm on every path, return its error and use no lenient accessor (URL.Query); the Getter writes the result's own bytes with 200. Also decided: the Getter's reply writer writes no body other than marshalled JSON outside the json.Marshal failure fallback.",
 		NotDecided:  []string{"the typing cascade for every string (strconv's number language is wider than documented)", "result equivalence over the HTTP channel"},
 		Assumptions: []string{"net/http client contract: a non-nil response has a non-nil Body"},
 		RuleText:    ruleText,
